@@ -8,6 +8,7 @@ classes are inside the quantification) and every value.  The corollaries below
 make the boundary claims of the property visible.
 -/
 import PyPred.Props.C01
+import PyPred.Lemmas.ClosureInst
 
 namespace PyPred
 variable {V : Type} [LinearOrder V]
@@ -97,5 +98,31 @@ without any quirk, so the partial theorem speaks about them. -/
 example : (optimizeT Cfg.allImpl (fun _ _ => false) 6 (.and (.ge 1) (.le 3) : Pred Int)).map Prod.snd = some [] := by decide
 example : (optimizeT Cfg.allImpl (fun _ _ => false) 6 (.or (.isin [1, 2]) (.eq 3) : Pred Int)).map Prod.snd = some [] := by decide
 example : (optimizeT Cfg.allImpl (fun _ _ => false) 6 (.and (.ge 2) (.le 2) : Pred Int)).map Prod.snd = some [] := by decide
+
+/-! ### No new constants: the optimised predicate is defined wherever the original is -/
+
+/-- `optimize` invents no constant: every constant of the result (bounds, members,
+compared values) is a constant of the argument — for every configuration, the code
+as it is (`Cfg.allImpl`) included. -/
+theorem C02_no_new_constants (cfg : Cfg) (fnc : Nat → V → Bool) (n : Nat) {p o : Pred V}
+    (h : optimize cfg fnc n p = some o) : ∀ a, a ∈ o.consts → a ∈ p.consts :=
+  consts_optimize cfg fnc n h
+
+/-- `optimize` compares its argument with no new bound: the constants under
+`<`, `<=`, `>`, `>=` in the result (one-sided atoms and both ends of the four
+ranges) already occur under a comparison in the argument.  Python raises
+`TypeError` exactly when a value is compared with a bound of an incomparable type,
+so wherever every comparison atom of the original is defined, every comparison
+atom of the optimised predicate is: this is what makes the totalised `eval` of
+`C02_optimize_preserves` honest. -/
+theorem C02_defined_preserved (cfg : Cfg) (fnc : Nat → V → Bool) (n : Nat) {p o : Pred V}
+    (h : optimize cfg fnc n p = some o) (ok : V → Prop) (hp : ∀ a, a ∈ p.cmpConsts → ok a) :
+    ∀ a, a ∈ o.cmpConsts → ok a :=
+  fun a ha => hp a (cmpConsts_optimize cfg fnc n h a ha)
+
+/-- Non-vacuity: a merged range keeps exactly the two bounds; the point collapse
+`ge v & le v → eq v` leaves no comparison at all. -/
+example : (optimize Cfg.allImpl (fun _ _ => false) 6 (.and (.ge 1) (.le 3) : Pred Int)).map Pred.cmpConsts = some [1, 3] := by decide
+example : (optimize Cfg.allImpl (fun _ _ => false) 6 (.and (.ge 2) (.le 2) : Pred Int)).map Pred.cmpConsts = some [] := by decide
 
 end PyPred
